@@ -74,11 +74,26 @@ fn case<S: Shape>(spec: &AnimSpec, st: usize, r: &mut Rng, acc: &mut Acc, stream
     ops.push(Op::Set((st + 1) % 5));
     ops.push(Op::Adv(0.125));
     ops.push(Op::Set(st));
+    // one case in four: the state under test is entered, interrupted by an un-animated state part-way
+    // and resumed (the end must then be reported relative to the resumed position)
+    let idle = (0..5).find(|s| !spec.animated(*s));
+    let mut resumed_part = 0.0f64;
+    if let (Some(idle), Some(t), true) = (idle, total, r.chance(1, 4)) {
+        if t.is_finite() && t >= 2.0 / 512.0 && idle != st {
+            let part = ((t * 512.0 * r.unit()).floor() / 512.0).min(t - 1.0 / 512.0).max(0.0);
+            ops.push(Op::Adv(part as f32));
+            ops.push(Op::Set(idle));
+            ops.push(Op::Adv(0.125));
+            ops.push(Op::Set(st));
+            resumed_part = part;
+        }
+    }
     let entry = ops.len();
     // schedule of advances after entering `st`
     let mut advs: Vec<f32> = Vec::new();
     let mode = r.below(4);
-    match (total, mode) {
+    let total_rem = total.map(|t| if t.is_finite() { t - resumed_part } else { t });
+    match (total_rem, mode) {
         (Some(t), 0) if t.is_finite() => {
             // land exactly on the total
             advs.push(t as f32);
@@ -204,7 +219,7 @@ fn case<S: Shape>(spec: &AnimSpec, st: usize, r: &mut Rng, acc: &mut Acc, stream
     if let Some(t) = total {
         if t.is_finite() && saw_not_ended && ended_at.is_some() {
             let sp = &spec.states[st];
-            acc.sig(format!("{}|merged={}|exact={landed_exact}|grid={on_grid}", sp[0].kind_name(), sp.len() > 1));
+            acc.sig(format!("{}|merged={}|exact={landed_exact}|grid={on_grid}|resumed={}", sp[0].kind_name(), sp.len() > 1, resumed_part > 0.0));
             acc.sample(3, || case(ended_at.unwrap(), "is_ended first true here; values constant for the remaining advances"));
         } else if t.is_infinite() {
             acc.sig(format!("infinite|merged={}", spec.states[st].len() > 1));
